@@ -60,7 +60,7 @@ structure Worker where
   /-- this worker's own call counter: the index into ITS failure mask -/
   calls : Nat := 0
   /-- ghost: this worker's delete calls so far (`true` = compare-and-delete) -/
-  trace : List (Bool × Bytes) := []
+  trace : List DelCall := []
   /-- the remaining actions, computed from the snapshot -/
   pending : List Act
   deriving Repr, DecidableEq
@@ -1126,7 +1126,7 @@ worker 1 skips the marker of `kb`; worker 0 is not affected -/
 theorem runC_facts :
     (run .tikv casMasks (init 8 parts2) [.compDel 0, .compDel 1]).workers.map (·.lastFailed) = [[], []] ∧
     sC.workers.map (·.lastFailed) = [[], kb] ∧
-    sC.workers.map (·.trace) = [ [(false, encode ka 4)], [(true, idxKey kb), (false, encode kb 3)] ] ∧
+    sC.workers.map (·.trace) = [ [.del (encode ka 4)], [.delcur (idxKey kb), .del (encode kb 3)] ] ∧
     sC.workers.map (·.pending) = [[], []] ∧
     sC.store.get (encode ka 4) = none ∧ sC.store.get (encode kb 3) = some [1] ∧
     sC.store.get (encode kb 7) = some tombstone ∧
@@ -1140,7 +1140,7 @@ theorem runA_facts :
     -- both workers are done; each made its own calls
     sA.workers.map (·.pending) = [[], []] ∧
     sA.workers.map (·.trace) =
-      [ [(false, encode ka 4)], [(true, idxKey kb), (false, encode kb 3), (false, encode kb 7)] ] ∧
+      [ [.del (encode ka 4)], [.delcur (idxKey kb), .del (encode kb 3), .del (encode kb 7)] ] ∧
     sA.workers.map (·.calls) = [1, 3] ∧
     -- worker 1's compare-and-delete failed: the index record is there, with the writer's value
     sA.store.get (idxKey kb) = some (be8 10) ∧
@@ -1167,7 +1167,7 @@ theorem runB_facts :
     (run .tikv okMasks (init 8 parts2) [.compDel 0, .compDel 1]).store.get (idxKey kb) = none ∧
     sB.workers.map (·.pending) = [[], []] ∧
     sB.workers.map (·.trace) =
-      [ [(false, encode ka 4)], [(true, idxKey kb), (false, encode kb 3), (false, encode kb 7)] ] ∧
+      [ [.del (encode ka 4)], [.delcur (idxKey kb), .del (encode kb 3), .del (encode kb 7)] ] ∧
     logicalIdx sB.store kb = some 10 ∧ logicalIdx sB.store ka = some 5 ∧
     readS 8 sB.store kb = none ∧ readS 9 sB.store kb = none ∧
     readS 10 sB.store kb = some ([9], 10) ∧ readS (2 ^ 64 - 1) sB.store kb = some ([9], 10) ∧
@@ -1180,7 +1180,7 @@ set_option maxRecDepth 100000 in
 /-- the skip key is per worker: worker 1's failed call makes it skip all of `kb`; worker 0 compacts `ka` -/
 theorem runF_facts :
     sF.workers.map (·.lastFailed) = [[], kb] ∧
-    sF.workers.map (·.trace) = [ [(false, encode ka 4)], [(true, idxKey kb)] ] ∧
+    sF.workers.map (·.trace) = [ [.del (encode ka 4)], [.delcur (idxKey kb)] ] ∧
     sF.store.get (encode ka 4) = none ∧ sF.store.get (encode kb 3) = some [1] ∧
     sF.store.get (encode kb 7) = some tombstone ∧
     -- the create conflicts with the flagged index record, which is still there
@@ -1249,7 +1249,7 @@ theorem runS_facts :
       [ [(ka, 0, be64 5), (ka, 4, [2]), (ka, 5, [3])],
         [(kb, 0, be8 10), (kb, 3, [1]), (kb, 7, tombstone), (kb, 10, [9])] ] ∧
     -- so it has no compare-and-delete to make: two unconditional deletes
-    sS.workers.map (·.trace) = [ [(false, encode ka 4)], [(false, encode kb 3), (false, encode kb 7)] ] ∧
+    sS.workers.map (·.trace) = [ [.del (encode ka 4)], [.del (encode kb 3), .del (encode kb 7)] ] ∧
     sS.workers.map (·.pending) = [[], []] ∧
     logicalIdx sS.store kb = some 10 ∧ logicalIdx sS.store ka = some 5 ∧
     readS 8 sS.store kb = none ∧ readS 9 sS.store kb = none ∧
